@@ -148,6 +148,20 @@ def layer_D_leaves():
     out += [("mm", ("arr", (2, -1, 3), "int"), v), ("mm", v, ("arr", (1, 0, 1), "bool")), ("LC", ("arr", (2, 3, 4), "uint8"), vp1),
             ("dot", v, ("lst", (1, -2, 3))), ("mm", ("arr", (0.5, -1.5, 2.0), "float32"), v),
             ("qform", v, ("arr2", ((2, 1, 0), (1, 3, -1), (0, -1, 4)), "int")), ("sum", ("vbin", "*", v, ("arr", (2, -1, 3), "int")))]
+    # reductions over MANY elements that all depend on every variable (7, 11, 13 rows: term counts that are odd at two
+    # or more levels of a pairwise summation)
+    def dense(rows, cols):
+        return ("arr2", tuple(tuple(float(((3 * i + 5 * j) % 7) - 3 + 0.5 * ((i + j) % 2)) for j in range(cols)) for i in range(rows)))
+
+    for rows in (7, 11, 13):
+        Av = ("mv", dense(rows, 3), v)
+        bvec = ("arr", tuple(0.25 * (i % 5) - 0.5 for i in range(rows)))
+        out += [("sum", Av), ("norm", ("vbin", "-", Av, bvec), 2), ("dot", ("vbin", "-", Av, bvec), ("vbin", "-", Av, bvec)),
+                ("mm", ("arr", tuple(1.0 + 0.5 * (i % 3) for i in range(rows))), Av)]
+    out += [("norm", ("mv", dense(7, 3), v), 1), ("sum", ("vun", "sin", ("mv", dense(7, 3), v))), ("sum", ("vpow", ("mv", dense(11, 3), v), 2))]
+    # a boolean matrix; an expression vector of Constants as the other side of a dot product; exponent-1 power sums
+    out += [("qform", v, ("arr2", ((1, 1, 0), (0, 1, 1), (1, 0, 1)), "bool")), ("dot", v, ("cvec", (2.0, 3.0, 5.0))),
+            ("dot", ("cvec", (2.0, -1.0, 0.5)), vp1), ("sum", ("vpow", vp1, 1))]
     return out
 
 
@@ -185,3 +199,23 @@ def shard(gen, i, n):
 
 def size(r):
     return 1 + sum(size(c) for c in r[1:] if isinstance(c, tuple) and c and isinstance(c[0], str) and len(c) > 1 and c[0] not in ("arr", "arr2", "lst", "lst2"))
+
+
+def nested_powers():
+    """(u ** m) ** n and friends for exponent pairs whose product is NOT how the tower behaves on negative u
+    ((u**2)**1.5 = |u|**3), over several inner expressions u; plus towers under outer operations."""
+    x, y = ("var", "x"), ("var", "y")
+    c = lambda v: ("c", v)  # noqa: E731
+    pw = lambda a, e: ("bin", "**", a, c(e))  # noqa: E731
+    inner = [x, ("bin", "+", x, y), ("bin", "*", x, y), ("un", "sin", x), ("bin", "-", x, c(1)), ("un", "neg", y)]
+    out = []
+    for u in inner:
+        for m in (2, 4, -2, 2.0):
+            for n in (0.5, 1.5, 2.5, -0.5, -1.5, 3):
+                out.append(pw(pw(u, m), n))
+        out.append(pw(pw(pw(u, 2), 1.5), 2))
+        out.append(pw(pw(pw(u, 2), 0.5), 3))
+    t = pw(pw(x, 2), 1.5)
+    out += [("bin", "+", t, ("bin", "*", x, y)), ("bin", "*", t, y), ("un", "exp", ("un", "neg", t)), ("bin", "/", y, ("bin", "+", t, c(1))),
+            ("bin", "+", ("bin", "+", t, ("bin", "*", x, y)), pw(y, 2))]
+    return out
